@@ -39,15 +39,21 @@ func die(format string, a ...any) {
 	os.Exit(2)
 }
 
+var coverTable []string
+
 type stats struct {
 	files, imports, sends, recvs, closes, selects, gos, mapRanges, chanRanges int
 }
 
 func main() {
-	if len(os.Args) != 2 {
-		die("usage: simgen <module dir>")
+	if len(os.Args) != 2 && len(os.Args) != 3 {
+		die("usage: simgen <module dir> [<cover table file>]")
 	}
 	dir := os.Args[1]
+	coverFile := ""
+	if len(os.Args) == 3 {
+		coverFile = os.Args[2]
+	}
 	cfg := &packages.Config{
 		Mode:  packages.NeedName | packages.NeedFiles | packages.NeedCompiledGoFiles | packages.NeedSyntax | packages.NeedTypes | packages.NeedTypesInfo | packages.NeedImports | packages.NeedDeps,
 		Dir:   dir,
@@ -77,7 +83,14 @@ func main() {
 				continue
 			}
 			r := &rewriter{fset: p.Fset, info: p.TypesInfo, file: f, st: &st}
-			if r.rewrite() {
+			changed := r.rewrite()
+			if coverFile != "" {
+				rel := strings.TrimPrefix(strings.TrimPrefix(name, dir), "/")
+				if r.cover(rel, &coverTable) {
+					changed = true
+				}
+			}
+			if changed {
 				var buf bytes.Buffer
 				if err := format.Node(&buf, p.Fset, f); err != nil {
 					die("%s: format: %v", name, err)
@@ -87,6 +100,15 @@ func main() {
 				}
 				st.files++
 			}
+		}
+	}
+	if coverFile != "" {
+		var sb strings.Builder
+		for i, c := range coverTable {
+			fmt.Fprintf(&sb, "%d %s\n", i, c)
+		}
+		if err := os.WriteFile(coverFile, []byte(sb.String()), 0o644); err != nil {
+			die("%v", err)
 		}
 	}
 	fmt.Printf("simgen: files=%d imports=%d go=%d send=%d recv=%d close=%d select=%d range-map=%d range-chan=%d\n",
@@ -346,6 +368,71 @@ func (r *rewriter) rewrite() bool {
 }
 
 func (r *rewriter) mark() { r.usedRT = true; r.changed = true }
+
+// cover numbers every block of the file (function bodies, branches, loop
+// bodies, case clauses) and makes it report its executions to simrt.Cover.
+func (r *rewriter) cover(rel string, table *[]string) bool {
+	n := 0
+	add := func(list []ast.Stmt, pos token.Pos) []ast.Stmt {
+		if !pos.IsValid() {
+			for _, st := range list {
+				if st.Pos().IsValid() {
+					pos = st.Pos()
+					break
+				}
+			}
+		}
+		if !pos.IsValid() {
+			return list // a block the rewriter itself generated
+		}
+		id := len(*table)
+		*table = append(*table, fmt.Sprintf("%s:%d", rel, r.fset.Position(pos).Line))
+		n++
+		probe := &ast.ExprStmt{X: call(rt("Cover"), &ast.BasicLit{Kind: token.INT, Value: strconv.Itoa(id)})}
+		return append([]ast.Stmt{probe}, list...)
+	}
+	ast.Inspect(r.file, func(nd ast.Node) bool {
+		switch x := nd.(type) {
+		case *ast.FuncDecl:
+			if x.Body != nil {
+				x.Body.List = add(x.Body.List, x.Pos())
+			}
+		case *ast.FuncLit:
+			x.Body.List = add(x.Body.List, x.Pos())
+		case *ast.IfStmt:
+			x.Body.List = add(x.Body.List, x.Body.Pos())
+			if els, ok := x.Else.(*ast.BlockStmt); ok {
+				els.List = add(els.List, els.Pos())
+			}
+		case *ast.ForStmt:
+			x.Body.List = add(x.Body.List, x.Body.Pos())
+		case *ast.RangeStmt:
+			x.Body.List = add(x.Body.List, x.Body.Pos())
+		case *ast.CaseClause:
+			x.Body = add(x.Body, x.Pos())
+		}
+		return true
+	})
+	if n == 0 {
+		return false
+	}
+	if !r.usedRT {
+		astutil.AddNamedImport(r.fset, r.file, rtName, rtPath)
+		r.usedRT = true
+	}
+	r.file.Comments = keepHeader(r.file)
+	return true
+}
+
+func keepHeader(f *ast.File) []*ast.CommentGroup {
+	var keep []*ast.CommentGroup
+	for _, cg := range f.Comments {
+		if cg.End() < f.Package {
+			keep = append(keep, cg)
+		}
+	}
+	return keep
+}
 
 func (r *rewriter) goStmt(g *ast.GoStmt) ast.Stmt {
 	cl := g.Call
